@@ -170,6 +170,36 @@ def limit_programs():
 TAIL_EXPECT = {}
 
 
+def limit_readback_programs():
+    """A function that holds m locals (m around the 256-locals limit), each with its own value, followed by one construct that declares
+    locals of its own AND WRITES THEM (visible ones and the hidden ones of `for` and of a class with a superclass); afterwards the sum of
+    all m locals is printed: either the program is rejected with a compile error, or no local was touched (a new local that aliases an
+    old slot changes the sum) and the construct computed what it should."""
+    constructs = [
+        ("var", "var x = 1000; x = x + 1; s = x;", "1001"),
+        ("for", "for x in [1, 2] { s = s + x; }", "3"),
+        ("for-body", "for x in [1, 2] { var y = x * 10; var w = y + 1; s = s + w; }", "32"),
+        ("for-nested", "for x in [1, 2] { for y in [10, 20] { var q = x + y; s = s + q; } }", "66"),
+        ("while-body", "while s < 3 { var y = 1; var w = y + 1; s = s + w; }", "4"),
+        ("catch", "try { throw 7; } catch e { s = e; }", "7"),
+        ("catch-body", "try { throw 7; } catch e { var y = e + 1; var w = y + 1; s = w; }", "9"),
+        ("block", "{ var y = 5; { var w = y + 1; s = w; } }", "6"),
+        ("if-body", "if s == 0 { var y = 4; var w = y * 2; s = w; } else { var q = 1; s = q; }", "8"),
+        ("fn", "fn g(a) { var b = a + 1; return b; } s = g(1);", "2"),
+        ("lambda-capture", "var g = |p| p + l0 + l1; s = g(1);", "2"),
+        ("class-derived", "#[derive(Base), constructor(new)] class C { fn hi(self) { return super.hi() + 1; } } s = C.new().hi();", "2"),
+        ("import-as", "import \"lim_mod\" as mm; s = mm.v;", "42"),
+    ]
+    out = []
+    for m in (250, 251, 252, 253, 254, 255, 256):
+        decls = "\n".join("var l%d = %d;" % (i, i) for i in range(m))
+        total = " + ".join("l%d" % i for i in range(m))
+        for cname, c, want in constructs:
+            src = ("class Base { fn hi(self) { return 1; } }\nfn f() {\nvar s = 0;\n%s\n%s\nprint(s);\nprint(%s);\n}\nf();\n" % (decls, c, total))
+            out.append(("limit:readback:%s:%d:%s:%d" % (cname, m, want, m * (m - 1) // 2), src, {"lim_mod": "var v = 42;\n"}))
+    return out
+
+
 def correspondence(ctx, model_ok=True):
     rng = ctx.rng.fork("c04")
     failures = []
@@ -181,6 +211,7 @@ def correspondence(ctx, model_ok=True):
     limits = limit_programs()
     if not ctx.thorough:
         limits = [p for p in limits if ":constants:" not in p[0]]
+    limits += limit_readback_programs()
     # every statement form of the catalogue (every instruction family x the kinds of value it dispatches on), at module level, in a
     # function and in a for loop: each executed instruction is compared with the verifier's annotation below
     allp = corpus + limits + [stmts.once_program(stmts.forms_without_finally())] + stmts.loop_programs(2, stmts.forms_without_finally()) + [(n, s, m) for n, s, m, _ in gen] + scripts
@@ -274,6 +305,8 @@ def correspondence(ctx, model_ok=True):
             ok = True
         elif r.get("status") == "ok" and kind == "constvalues":
             ok = r.get("printed") == ["0.25", "%s.5" % (int(name.split(":")[3]) - 1)]
+        elif r.get("status") == "ok" and kind == "readback":
+            ok = r.get("printed") == [name.split(":")[4], name.split(":")[5]]
         elif r.get("status") == "ok" and kind == "localsfor":
             ok = r.get("printed") == ["3", "5", name.split(":")[3]]
         elif r.get("status") == "ok" and kind == "localsclass":
